@@ -9,7 +9,7 @@ Nothing here guesses state: after every step the abstract state of every node is
 from the real objects (project_node) and the step is logged with the projection of whatever
 changed.  The log (an "implementation trace") is validated by TLC against spec/CoreTrace.tla.
 """
-import sys, os, collections, json, struct, functools, shutil, tempfile, io, gzip
+import sys, os, collections, json, struct, functools, shutil, tempfile, io, gzip, hashlib
 
 REPO = os.environ.get('VERIF_REPO', '/repo')
 if REPO not in sys.path:
@@ -35,6 +35,7 @@ T_FALLBACK = 1.0e5          # leaderFallbackTimeout
 T_ELMIN, T_ELMAX = 4.0e11, 6.0e11
 ADV = {'z': 0.0, 'h': 2.0, 'm': 1.0e6, 'j': 1.0e12}
 ROLE = {0: 'F', 1: 'C', 2: 'L'}
+DEFAULT_CUT = 8            # iterations of the append_entries send loop before its time budget is used up
 
 
 class _Ctx(object):
@@ -47,11 +48,20 @@ def _now():
     n = _Ctx.node
     if n is None:
         return 1000.0
-    n.reads += 1
-    if n.read_budget is not None and n.reads > n.read_budget[0]:
-        # scripted clock: from the k-th reading of this step on, time has advanced by more than
-        # appendEntriesPeriod (cuts the budgeted loops of the tick)
-        return n.clock + n.read_budget[1]
+    if n.send_cut is not None:
+        # Time budget of SyncObj.__sendAppendEntries: the schedule decides after how many iterations of the
+        # send loop more than appendEntriesPeriod has elapsed (the clock really moves, and stays moved).
+        f = sys._getframe(1)
+        if f.f_code.co_name == '__sendAppendEntries':
+            key = id(f)
+            if n.sae_frame != key or f.f_lineno < n.sae_line:
+                n.sae_frame, n.sae_reads, n.sae_cut_done = key, 0, False    # a new invocation of the function
+            n.sae_line = f.f_lineno
+            n.sae_reads += 1
+            if n.sae_reads - 2 >= n.send_cut and not n.sae_cut_done:
+                n.clock += 2.0 * T_PERIOD
+                n.sae_cut_done = True
+                n.cut_hits += 1
     return n.clock
 
 
@@ -60,15 +70,37 @@ class _FakeRandom(object):
         return 0.5
 
 
+class _DetGzip(object):
+    """gzip with a fixed header time stamp: equal snapshot content <=> equal bytes (blob identity = content)"""
+    @staticmethod
+    def GzipFile(filename=None, mode=None, compresslevel=9, fileobj=None, mtime=None):
+        return gzip.GzipFile(filename=filename, mode=mode, compresslevel=compresslevel, fileobj=fileobj, mtime=0)
+
+
 def install_patches():
+    import pysyncobj.serializer as ser
     so.monotonicTime = _now
     so.random = _FakeRandom()
+    ser.gzip = _DetGzip
 
 
 install_patches()
 
 
 # ----------------------------------------------------------------------------------------------
+class Msg(object):
+    """one item of a channel: the pickled message as it would be on the wire, plus facts about it that were
+    established when it was sent (which snapshot blob and offset a snapshot chunk was cut from)"""
+    __slots__ = ('data', 'meta')
+
+    def __init__(self, data, meta=None):
+        self.data = data
+        self.meta = meta
+
+
+HELLO = b'hello'
+
+
 class Net(object):
     """Per ordered pair: FIFO channel of pickled messages; per unordered pair: physical link alive?;
     per ordered pair: does endpoint i have j registered as connected (send succeeds)."""
@@ -93,7 +125,8 @@ class SimTransport(Transport):
         self.members = set()      # node ids added through addNode and not dropped (voters known to me)
         self.ro_counter = 0
         self.ro_ids = {}          # observer sim id -> Node the raft layer knows it as
-        self.sent = []            # per step: (dest, abstract message) actually enqueued or lost
+        self.ro_hist = {}         # every counter id ever handed out -> observer sim id
+        self.ae_order = []        # per step: peers in the order the append_entries send loop reached them
 
     # -- API used by SyncObj
     def addNode(self, node):
@@ -120,11 +153,17 @@ class SimTransport(Transport):
 
     def send(self, node, message):
         peer = self._peer_of(node.id)
+        if peer is not None and isinstance(message, dict) and message.get('type') == 'append_entries' \
+                and peer not in self.ae_order:
+            self.ae_order.append(peer)      # iteration order of the leader's send loop over its set of peers
         if peer is None or (self.me, peer) not in self.net.up:
             return False
         data = sopickle.dumps(message)
+        meta = None
+        if isinstance(message, dict) and message.get('type') == 'append_entries' and message.get('serialized'):
+            meta = self.cluster._chunk_meta(self.me, node, message['serialized'])
         if self.net.pair(self.me, peer) in self.net.alive:
-            self.net.chan[(self.me, peer)].append(data)
+            self.net.chan[(self.me, peer)].append(Msg(data, meta))
         # else: written into a dead connection that this side has not noticed yet
         return True
 
@@ -212,13 +251,17 @@ class SimNode(object):
         self.id = nid
         self.voter = voter
         self.clock = 1000.0
-        self.reads = 0
-        self.read_budget = None
+        self.send_cut = None
+        self.sae_frame, self.sae_line, self.sae_reads, self.sae_cut_done = None, 0, 0, False
+        self.cut_hits = 0
         self.obj = None
         self.tr = None
         self.alive = False
         self.generation = 0
         self.maxver = 2
+        self.last_chunk = None    # meta of the snapshot chunk in the message being delivered
+        self.inc_meta = None      # verified decomposition of the incoming snapshot buffer into chunks
+        self.nsnap = 0            # snapshot blobs created by this node so far
 
 
 class Cluster(object):
@@ -247,9 +290,12 @@ class Cluster(object):
             self._start(nid, self.voters, voter=True)
         for nid in self.observers:
             self._start(nid, self.voters, voter=False)
+        for nid in self.spares:
+            self.nodes[nid] = SimNode(self, nid, True)
         if cfg.get('init_connected', False):
-            for x, i in enumerate(self.voters):
-                for j in self.voters[x + 1:]:
+            mesh = [v for v in self.voters if v not in cfg.get('isolated0', [])]
+            for x, i in enumerate(mesh):
+                for j in mesh[x + 1:]:
                     self.net.alive.add(self.net.pair(i, j))
                     for a, b in ((i, j), (j, i)):
                         self.net.up.add((a, b))
@@ -285,7 +331,6 @@ class Cluster(object):
             sn = self.nodes[nid] = SimNode(self, nid, voter)
         sn.generation += 1
         _Ctx.node = sn
-        sn.reads = 0
         try:
             tr = SimTransport(self, nid)
             others = [m for m in members if m != nid]
@@ -298,6 +343,26 @@ class Cluster(object):
         finally:
             _Ctx.node = None
         return sn
+
+    def _stop(self, nid):
+        """the process dies: connections gone (peers notice on their own), memory gone"""
+        sn = self.nodes[nid]
+        sn.alive = False
+        try:
+            sn.obj._doDestroy()
+        except Exception:
+            pass
+        sn.obj = None
+        sn.tr = None
+        self.net.tr.pop(nid, None)
+        for p in [p for p in self.net.alive if nid in p]:
+            self.net.alive.discard(p)
+        for (i, j) in list(self.net.up):
+            if i == nid:
+                self.net.up.discard((i, j))
+        for (i, j) in list(self.net.chan):
+            if i == nid or j == nid:
+                self.net.chan[(i, j)] = []
 
     def close(self):
         for sn in self.nodes.values():
@@ -348,10 +413,16 @@ class Cluster(object):
                 return False
             if not N[j].voter:
                 return False            # nobody dials an observer
+            if not N[i].voter and (j, i) in self.net.up:
+                return False            # (a read-only node re-dials only after the voter dropped its old connection)
             if N[i].voter and (j not in self.net.tr[i].members):
                 return False            # i does not know j as a member: no connection object
             return True
         if k == 'Compact':
+            return act[1] in N and N[act[1]].alive
+        if k == 'Start':
+            return act[1] in N and not N[act[1]].alive and N[act[1]].voter and not self.cfg.get('journal')
+        if k == 'Stop':
             return act[1] in N and N[act[1]].alive
         return False
 
@@ -363,18 +434,21 @@ class Cluster(object):
         if k == 'Tick':
             node = self.nodes[act[1]]
             node.clock += ADV[act[2]]
+            node.send_cut = int(act[3]) if len(act) > 3 else DEFAULT_CUT
             self._enter(node, lambda: node.obj.doTick(0.0), 'tick')
         elif k == 'Deliver':
             i, j = act[1], act[2]
-            data = self.net.chan[(i, j)].pop(0)
+            item = self.net.chan[(i, j)].pop(0)
+            data = item.data
             node = self.nodes[j]
-            if data == b'hello':
+            if data == HELLO:
                 self._hello(i, j)
             else:
                 tr = self.net.tr[j]
                 known = (i in tr.members) or (i in tr.ro_ids)
                 if known:
                     msg = sopickle.loads(data)
+                    node.last_chunk = item.meta
                     frm = self._raft_node(j, i)
                     self._enter(node, lambda: tr._onMessageReceived(frm, msg), 'msg')
         elif k == 'Submit':
@@ -396,7 +470,7 @@ class Cluster(object):
             i, j = act[1], act[2]
             node = self.nodes[i]
             self.net.alive.add(self.net.pair(i, j))
-            self.net.chan[(i, j)] = [b'hello']
+            self.net.chan[(i, j)] = [Msg(HELLO)]
             self.net.chan[(j, i)] = []
             self.net.up.add((i, j))
             tr = self.net.tr[i]
@@ -404,6 +478,10 @@ class Cluster(object):
         elif k == 'Compact':
             node = self.nodes[act[1]]
             node.obj.forceLogCompaction()
+        elif k == 'Start':
+            self._start(act[1], list(act[2]), voter=True)
+        elif k == 'Stop':
+            self._stop(act[1])
         else:
             raise ValueError(act)
         return self._record(act)
@@ -422,6 +500,7 @@ class Cluster(object):
             self._enter(node, lambda: tr._onNodeConnected(Node(i)), 'hello')
         else:
             rn = Node(str(tr.ro_counter))
+            tr.ro_hist[str(tr.ro_counter)] = i
             tr.ro_counter += 1
             tr.ro_ids[i] = rn
             self.net.up.add((j, i))
@@ -429,7 +508,12 @@ class Cluster(object):
 
     def _enter(self, node, fn, where):
         _Ctx.node = node
-        node.reads = 0
+        node.sae_frame, node.sae_line, node.sae_reads, node.sae_cut_done = None, 0, 0, False
+        if node.tr is not None:
+            node.tr.ae_order = []
+        self._stepping = node
+        if where != 'tick':
+            node.send_cut = DEFAULT_CUT
         try:
             fn()
         except Exception as e:      # what the auto-tick thread would log and survive
@@ -508,8 +592,9 @@ class Cluster(object):
         c = self.abs_cmd(e[0])
         return {'idx': int(e[1]), 'term': int(e[2]), 'cmd': c['id'], 'sz': c['sz']}
 
-    def abs_msg(self, data):
-        if data == b'hello':
+    def abs_msg(self, item):
+        data = item.data
+        if data == HELLO:
             return {'t': 'hello'}
         m = sopickle.loads(data)
         t = m['type']
@@ -536,10 +621,10 @@ class Cluster(object):
                         'entries': [self.abs_entry(e) for e in m['entries']]}
             s = m.get('serialized')
             if s is None or s is False:
-                return {'t': 'aes', 'term': m['term'], 'commit': m['commit_index'], 'has': False,
-                        'first': False, 'last': False, 'len': 0}
+                return {'t': 'aes', 'term': m['term'], 'commit': m['commit_index'], 'has': False}
+            meta = item.meta or {'sid': '?', 'off': -1}
             return {'t': 'aes', 'term': m['term'], 'commit': m['commit_index'], 'has': True,
-                    'first': bool(s[1]), 'last': bool(s[2]), 'len': len(s[0])}
+                    'first': bool(s[1]), 'last': bool(s[2]), 'len': len(s[0]), 'sid': meta['sid'], 'off': meta['off']}
         return {'t': '?'}
 
     def project_node(self, sn):
@@ -557,8 +642,8 @@ class Cluster(object):
         ro_rev = {n.id: oid for oid, n in tr.ro_ids.items()}
 
         def nm(nodeobj):
-            # raft-level node -> simulator id (observers are known under counter ids)
-            return ro_rev.get(nodeobj.id, nodeobj.id)
+            # raft-level node -> simulator id (observers are known under counter ids, also after they left)
+            return ro_rev.get(nodeobj.id, tr.ro_hist.get(nodeobj.id, nodeobj.id))
         nxt = {nm(n): int(v) for n, v in g('raftNextIndex').items()}
         mat = {nm(n): int(v) for n, v in g('raftMatchIndex').items()}
         fresh = []
@@ -567,11 +652,11 @@ class Cluster(object):
             fresh = sorted(nm(n) for n, t in g('lastResponseTime').items() if t > dl)
         q = []
         for cmd, cb in list(getattr(g('commandsQueue'), '_FastQueue__queue')):
-            q.append({'cmd': self.abs_cmd(cmd)['id'], 'sz': len(cmd), 'cb': self._abs_cb(cb)})
+            q.append({'cmd': self.abs_cmd(cmd)['id'], 'sz': len(cmd), 'cb': self._abs_cb(cb, sn)})
         wc = []
         for idx, lst in sorted(g('commandsWaitingCommit').items()):
             for term, cb in lst:
-                wc.append({'idx': int(idx), 'term': int(term), 'cb': self._abs_cb(cb)})
+                wc.append({'idx': int(idx), 'term': int(term), 'cb': self._abs_cb(cb, sn)})
         wr = [{'rid': int(rid), 'cb': self._abs_cb(cb)} for rid, cb in sorted(g('commandsWaitingReply').items())]
         st = {
             'alive': True,
@@ -607,6 +692,8 @@ class Cluster(object):
         }
         rt = g('recvTransmission')
         st['rtLen'] = len(rt)
+        st['rocnt'] = int(tr.ro_counter)
+        st['roid'] = {oid: int(n.id) for oid, n in tr.ro_ids.items()}
         st.update(self._project_serializer(sn))
         try:
             fn = {}
@@ -618,10 +705,70 @@ class Cluster(object):
             st['names'] = NIL
         return st
 
+    # -- snapshots ---------------------------------------------------------------------------------
+    def _ser(self, sn):
+        s = getattr(sn.obj, '_SyncObj__serializer')
+        return s, (lambda name: getattr(s, '_Serializer__' + name))
+
+    def _held_blob(self, sn):
+        """the serialized snapshot this node holds: in memory, or the content of its dump file"""
+        s, g = self._ser(sn)
+        fname = g('fileName')
+        if fname is None:
+            return g('inMemorySerializedData')
+        if not os.path.isfile(fname):
+            return None
+        with open(fname, 'rb') as f:
+            return f.read()
+
+    def _blob_info(self, raw, seen_at):
+        """registry of every snapshot blob ever seen: identity (creator, serial) and decoded content"""
+        reg = self.__dict__.setdefault('_blobs', {})
+        key = hashlib.sha1(raw).digest()
+        info = reg.get(key)
+        if info is not None:
+            return info
+        try:
+            with gzip.GzipFile(fileobj=io.BytesIO(raw)) as gz:
+                d = sopickle.load(gz)
+            selfdata = d[0][0] if isinstance(d[0], list) else d[0]
+            seen_at.nsnap += 1
+            info = {'has': True, 'ok': True, 'sid': hashlib.sha1(raw).hexdigest()[:10], 'size': len(raw),
+                    'last': self.abs_entry(d[1]), 'prev': self.abs_entry(d[2]),
+                    'hist': [[int(p), c, int(v)] for (p, c, v) in (selfdata or {}).get('hist', [])],
+                    'cluster': sorted(n.id for n in d[3] if n is not None),
+                    'ver': int((selfdata or {}).get('_SyncObj__enabledCodeVersion', 0))}
+        except Exception:
+            info = {'has': True, 'ok': False, 'size': len(raw)}
+        info['_raw'] = raw
+        reg[key] = info
+        if info['ok']:
+            self.__dict__.setdefault('_newsnaps', []).append({k: v for k, v in info.items() if k not in ('_raw', 'has', 'ok')})
+        return info
+
+    def _chunk_meta(self, me, to_node, serialized):
+        """called from SimTransport.send: which blob and offset is this chunk cut from"""
+        sn = self.nodes[me]
+        s, g = self._ser(sn)
+        data = serialized[0]
+        tr = g('transmissions').get(to_node)
+        try:
+            if g('fileName') is None:
+                raw = tr['data'] if tr is not None else g('inMemorySerializedData')
+                off = (tr['transmitted'] - len(data)) if tr is not None else -1
+            else:
+                raw = self._held_blob(sn)
+                off = (tr['transmitted'] - len(data)) if tr is not None else -1
+            if serialized[2] and tr is None:
+                # the final (empty) chunk: the transmission record has just been dropped
+                off = len(raw)
+            info = self._blob_info(raw, sn)
+            return {'sid': info.get('sid', '?'), 'off': int(off), 'len': len(data)}
+        except Exception:
+            return {'sid': '?', 'off': -1, 'len': len(data)}
+
     def _project_serializer(self, sn):
-        o = sn.obj
-        s = getattr(o, '_SyncObj__serializer')
-        g = lambda name: getattr(s, '_Serializer__' + name)
+        s, g = self._ser(sn)
         pid = g('pid')
         tr = sn.tr
         ro_rev = {n.id: oid for oid, n in tr.ro_ids.items()}
@@ -629,50 +776,71 @@ class Cluster(object):
         for k, v in g('transmissions').items():
             kid = ro_rev.get(k.id, k.id) if hasattr(k, 'id') else str(k)
             trans[kid] = int(v['transmitted'])
+        raw = self._held_blob(sn)
+        if raw is None:
+            snap = 'none'
+        else:
+            bi = self._blob_info(raw, sn)
+            snap = bi['sid'] if bi['ok'] else 'garbage'
+        # incoming buffer: decomposition into chunks, verified against the real bytes
         inc = g('incomingTransmissionFile')
-        snap = self._snapshot_info(sn)
-        return {'serPid': int(pid) if pid in (0, -1, -2) else 1, 'serId': int(g('currentID')),
-                'trans': trans, 'incoming': (len(inc) if isinstance(inc, (bytes, bytearray)) else (-1 if inc is None else -2)),
-                'snap': snap}
-
-    def _snapshot_info(self, sn):
-        """decode the snapshot this node currently holds (in memory, or its dump file)"""
-        o = sn.obj
-        s = getattr(o, '_SyncObj__serializer')
-        fname = getattr(s, '_Serializer__fileName')
-        try:
-            if fname is None:
-                data = getattr(s, '_Serializer__inMemorySerializedData')
-                if data is None:
-                    return {'has': False}
-                raw = data
+        if inc is None:
+            sn.inc_meta = None
+            incoming = {'has': False}
+        else:
+            if isinstance(inc, (bytes, bytearray)):
+                buf = bytes(inc)
             else:
-                if not os.path.isfile(fname):
-                    return {'has': False}
-                with open(fname, 'rb') as f:
-                    raw = f.read()
-            key = (len(raw), hash(raw))
-            cache = self.__dict__.setdefault('_snapcache', {})
-            if key in cache:
-                return cache[key]
-            with gzip.GzipFile(fileobj=io.BytesIO(raw)) as gz:
-                d = sopickle.load(gz)
-            selfdata = d[0][0] if isinstance(d[0], list) else d[0]
-            info = {'has': True, 'ok': True, 'size': len(raw),
-                    'last': self.abs_entry(d[1]), 'prev': self.abs_entry(d[2]),
-                    'hist': [[int(p), c, int(v)] for (p, c, v) in selfdata.get('hist', [])],
-                    'cluster': sorted(n.id for n in d[3] if n is not None),
-                    'ver': int(selfdata.get('_SyncObj__enabledCodeVersion', 0))}
-            cache[key] = info
-            return info
-        except Exception as e:
-            return {'has': True, 'ok': False, 'size': -1}
+                try:
+                    inc.flush()
+                    with open(g('fileName') + '.1.tmp', 'rb') as f:
+                        buf = f.read()
+                except Exception:
+                    buf = None
+            cands = []
+            lc = sn.last_chunk
+            if sn.inc_meta is not None:
+                cands.append(list(sn.inc_meta))
+                if lc is not None:
+                    cands.append(list(sn.inc_meta) + [lc])
+            if lc is not None:
+                cands.append([lc])
+            cands.append([])
+            chosen = None
+            for c in cands:
+                if buf is not None and self._chunks_bytes(c) == buf:
+                    chosen = c
+                    break
+            sn.inc_meta = chosen
+            if chosen is None:
+                incoming = {'has': True, 'chunks': [], 'known': False}
+            else:
+                incoming = {'has': True, 'known': True,
+                            'chunks': [{'sid': c['sid'], 'off': c['off'], 'len': c['len']} for c in chosen]}
+        sn.last_chunk = None
+        return {'serPid': int(pid) if pid in (0, -1, -2) else 1, 'serId': int(g('currentID')),
+                'trans': trans, 'incoming': incoming, 'snap': snap}
 
-    def _abs_cb(self, cb):
+    def _chunks_bytes(self, chunks):
+        out = b''
+        reg = self.__dict__.get('_blobs', {})
+        by_sid = {v['sid']: v for v in reg.values() if v.get('ok')}
+        for c in chunks:
+            info = by_sid.get(c['sid'])
+            if info is None or c['off'] < 0:
+                return None
+            out += info['_raw'][c['off']:c['off'] + c['len']]
+        return out
+
+    def _abs_cb(self, cb, sn=None):
         if cb is None:
             return {'k': 'none'}
         if isinstance(cb, tuple):
-            return {'k': 'fwd', 'n': self._sim_id_of(cb[0]), 'rid': int(cb[1])}
+            nid = cb[0].id
+            hist = sn.tr.ro_hist if sn is not None else {}
+            if nid in hist:
+                return {'k': 'fwd', 'n': hist[nid], 'rid': int(cb[1]), 'ro': int(nid)}
+            return {'k': 'fwd', 'n': nid, 'rid': int(cb[1]), 'ro': -1}
         if isinstance(cb, functools.partial) and cb.args:
             return {'k': 'cb', 'cid': cb.args[0]}
         return {'k': 'other'}
@@ -695,6 +863,25 @@ class Cluster(object):
     def _record(self, act):
         p = self.project()
         rec = {'a': list(act), 'obs': list(self.rec.step_obs)}
+        if self.__dict__.get('_newsnaps'):
+            rec['newsnaps'] = self._newsnaps
+            self._newsnaps = []
+        stn = self.__dict__.get('_stepping')
+        if stn is not None and stn.tr is not None and len(stn.tr.ae_order) > 1:
+            rec['ord'] = list(stn.tr.ae_order)
+        self._stepping = None
+        if act[0] == 'Tick' and self.prev_proj is not None:
+            # identity and size of the blob a serialization in this tick produced (an input of the specification's step)
+            new = p['nodes'][act[1]].get('snap')
+            serialized = p['nodes'][act[1]].get('serPid') in (-1, 1) and self.prev_proj['nodes'][act[1]].get('serPid') == 0
+            if serialized and new not in (None, 'none', 'garbage'):
+                for info in self._blobs.values():
+                    if info.get('ok') and info['sid'] == new:
+                        rec['orc'] = {'sid': new, 'size': info['size']}
+        if self.nodes and any(sn.cut_hits for sn in self.nodes.values()):
+            rec['cuts'] = sum(sn.cut_hits for sn in self.nodes.values())
+            for sn in self.nodes.values():
+                sn.cut_hits = 0
         if self.prev_proj is None:
             rec['full'] = self._full(p)
         else:
